@@ -252,3 +252,76 @@ def hostile_phsf_cli(c, limit=None):
     c.cov["cli_runs"] = c.cov.get("cli_runs", 0) + runs
     c.hist["cli:hostile-phsf"] = runs
     return runs
+
+
+# ------------------------------------------------------------------------------- hostile chunks that only the CLI parses
+def hostile_acl_archives():
+    """C07: well-formed archives whose entries carry faCl / faCe chunks (parsed by the CLI, not by libpna) with texts
+    no writer of the tool produces: multi-byte characters in every field, invalid UTF-8, missing and surplus fields,
+    empty and very long fields, embedded NUL"""
+    good = [b":u:alice:allow:r,w", b"linux:d:g:staff:allow:r,x", b"windows::u:eve:deny:delete,chown"]
+    weird = [
+        "é:d:u:alice:allow:r,w", "プラットフォーム::u:bob:allow:r", "é::u:bob:allow:r", ":u:アリス:allow:r", ":g:Ω:deny:w",
+        ":u:alice:allow:é", ":é:alice:allow:r", "linux:é:u:a:allow:r", ":u:alice:é:r", "linux:d,é:u:a:allow:r,é",
+        "日本:日本:日本:日本:日本:日本", "é:é", "é", ":é", "é:", "𝔘:𝔘:𝔘:𝔘:𝔘:𝔘",
+    ]
+    bad = [b"", b":", b"::", b":::", b"::::", b":::::", b"::::::", b":::::::", b"a:b", b"u:alice", b":u:alice", b":u:alice:allow", b":u:alice:allow:",
+           b":u:alice:allow:r:extra:fields", b":x:alice:allow:r", b":u:alice:maybe:r", b":u:alice:allow:nonsense", b":u:alice:allow:r,,w", b":u:alice:allow:,",
+           b"\xff\xfe:u:alice:allow:r", b":u:\xff:allow:r", b":u:alice:allow:\xc3", b"\xc3", b":u:ali\x00ce:allow:r", b"linux\x00:d:u:a:allow:r",
+           b":u:" + b"n" * 5000 + b":allow:r", b"p" * 300 + b"::u:a:allow:r", b":u:a:allow:" + b"r," * 2000 + b"r"]
+    texts = good + [w.encode() for w in weird] + bad
+    plats = [None, b"linux", b"", "é".encode(), b"\xff", b"x" * 300]
+    sig = b"\x89PNA\r\n\x1a\n"
+    head = sig + _chunk(b"AHED", bytes(8))
+    out = []
+    for i, t in enumerate(texts):
+        pl = plats[i % len(plats)]
+        body = (_chunk(b"faCl", pl) if pl is not None else b"") + _chunk(b"faCe", t)
+        entry = _chunk(b"FHED", bytes([0, 0, 0, 0, 0, 0]) + b"f") + body + _chunk(b"FDAT", b"data") + _chunk(b"FEND", b"")
+        out.append(head + entry + _chunk(b"AEND", b""))
+        if i % 3 == 0:      # the same entry inside a plain solid stream
+            out.append(head + _chunk(b"SHED", bytes(5)) + _chunk(b"SDAT", entry) + _chunk(b"SEND", b"") + _chunk(b"AEND", b""))
+    for pl in plats[1:]:
+        out.append(head + _chunk(b"FHED", bytes(6) + b"f") + _chunk(b"faCl", pl) + _chunk(b"FDAT", b"data") + _chunk(b"FEND", b"") + _chunk(b"AEND", b""))
+    return out
+
+
+ACL_CMDS = [
+    ("list", lambda f, o: ["list", "--solid", f]),
+    ("list -l", lambda f, o: ["list", "--solid", "-l", f]),
+    ("list -l -e", lambda f, o: ["list", "--solid", "-l", "-e", "--unstable", f]),
+    ("list jsonl", lambda f, o: ["list", "--solid", "--format", "jsonl", "--unstable", f]),
+    ("list tree", lambda f, o: ["list", "--solid", "--format", "tree", "--unstable", f]),
+    ("extract --keep-acl", lambda f, o: ["extract", f, "--out-dir", o, "--overwrite", "--keep-acl", "--unstable"]),
+    ("acl get", lambda f, o: ["experimental", "acl", "get", f, "*"]),
+    ("acl set", lambda f, o: ["experimental", "acl", "set", f, "*", "-m", "u:bob:r"]),
+    ("migrate", lambda f, o: ["experimental", "migrate", f, "--output", os.path.join(o, "m.pna")]),
+    ("strip --keep-acl", lambda f, o: ["strip", f, "--keep-acl", "--unstable", "--output", os.path.join(o, "s.pna")]),
+]
+
+
+def hostile_acl_cli(c, limit=None):
+    """every command that parses (or may parse) ACL chunks on every hostile ACL archive: exit 101 or a hang violates C07"""
+    arch = hostile_acl_archives()
+    if limit:
+        arch = random.Random(c.seed + 7).sample(arch, min(limit, len(arch)))
+    runs = 0
+    with cli.Sandbox("acl") as sb:
+        d = sb.path("h")
+        os.makedirs(os.path.join(d, "o"))
+        f = os.path.join(d, "in.pna")
+        for data in arch:
+            for name, mk in ACL_CMDS:
+                with open(f, "wb") as fh:
+                    fh.write(data)
+                r = cli.run_pna(mk(f, os.path.join(d, "o")), cwd=sb.root, timeout=30)
+                runs += 1
+                if r["timeout"] or r["rc"] == 101 or (r["rc"] is not None and r["rc"] < 0):
+                    what = "hangs (30 s)" if r["timeout"] else "panics (exit 101)" if r["rc"] == 101 else "killed by signal %d" % -r["rc"]
+                    c.violations.append(("cli", "`pna %s` %s on an entry with a foreign ACL chunk" % (name, what),
+                                         "input (hex): %s\ncommand: %s\nstderr: %s" % (data.hex(), r["cmd"].replace(sb.root, "<sandbox>"),
+                                                                                        r["err"].decode("utf-8", "replace")[-600:]), True))
+    c.cov["evaluations"] += runs
+    c.cov["cli_runs"] = c.cov.get("cli_runs", 0) + runs
+    c.hist["cli:hostile-acl"] = runs
+    return runs
